@@ -92,9 +92,7 @@ def evaluate(tree, tseed=0, leaf_mode='own', extra_texts=(), check_export=False,
         return Outcome('diff:empty', f'emitted {pattern!r} but model empty={m.empty}', pattern=pattern, ref=m.ref, model=m)
 
     txts = list(dsl.texts(tree, tseed)) + [t for t in extra_texts if t not in ('',)]
-    if dsl.unbounded_depth(tree) >= 2:
-        # nested repetition: keep re's backtracking bounded (shorter and fewer texts), a timeout is never a verdict
-        txts = list(dict.fromkeys(t[:9] for t in txts))[:14]
+    txts = dsl.bounded_texts(tree, txts)
     matched = any(rb.search(t) is not None and rb.search(t).group(0) != '' for t in txts)
     if ra.groups != rb.groups or dict(ra.groupindex) != dict(rb.groupindex):
         return Outcome('diff:groups', f'emitted {pattern!r} has groups={ra.groups} names={dict(ra.groupindex)}; '
